@@ -142,6 +142,12 @@ pub const CARRIERS: &[(&str, &str, &str)] = &[
     ("generic.to_cmp", "int", "[5, 3, 9].sort(to_cmp(v_cb)).get(0)"),
     ("str.format", "int", "f\"{v_w(2)}-{V_S(1)}\".len()"),
     ("str.join", "int", "range(3).map((v_x: int)->{v_cb(v_x).to_str()}).to_array().join(\",\").len()"),
+    ("big-string", "int", "(\"ab\" * 3000).len()"),
+    ("big-array", "int", "range(600).to_array().len()"),
+    ("big-int", "bool", "2 ** 20000 > 0"),
+    ("big-error-message", "int", "if_error(cast<Optional<int>>(none()).value(\"m\" * 3000), 0 - 1)"),
+    ("assert.false-cond", "bool", "is_error(assert(v_w(2) == 0 - 1))"),
+    ("assert.true-cond", "bool", "assert(v_w(2) == 14)"),
     ("default-param", "int", "((v_x: int, v_y: int ?= v_w(2))->{v_x + v_y})(1)"),
     ("closure-captured", "int", "((v_k: int)->{ (v_x: int)->{v_w(v_k) + v_x} })(2)(3)"),
 ];
@@ -163,6 +169,7 @@ pub const CATCHERS: &[(&str, &str)] = &[
     ("nested", "if_error(if_error(if({X} > 0 - 1000, error(\"inner\"), 3), \"nomatch\", v_fb()), 5)"),
     ("in-tuple", "({X}, v_fb())::item0"),
     ("in-array", "[{X}, 2].len()"),
+    ("assert-false", "if(is_error(assert(({X}) == 0 - 12345)), 1, v_fb())"),
     ("arg-of-error-handler", "if_error(v_d(0) + {X}, v_fb())"),
 ];
 
@@ -175,6 +182,10 @@ pub fn program(carrier: usize, catcher: usize) -> Option<(String, String)> {
         _ => return None,
     };
     let body = ktpl.replace("{X}", &as_int);
-    let text = format!("{PRELUDE}\nfn main()->int{{ {body} }}\n");
+    // ballast: a live top-level value larger than the transient peak of instantiating the std
+    // library, so that every allocation made by main() raises the running maximum and is therefore
+    // a point where a size limit can land
+    let ballast = "b".repeat(1400);
+    let text = format!("let v_ballast = \"{ballast}\";\n{PRELUDE}\nfn main()->int{{ {body} }}\n");
     Some((format!("{cname}@{kname}"), text))
 }
